@@ -79,6 +79,17 @@ def run(c):
             for inner in (inners if thorough else rng.sample(inners, 12)):
                 for fixed in ((0x01, 0x11, 0x05, 0x0F) if "Transport" in t["name"] else (0x00, 0x01)):
                     cases.append(dict(k="dec", entry="plain", inp=with_container(t["name"], sname, inner, fixed)))
+    # every routed type with the header octets routing ignores at their extreme and reserved values (PTI 0 / 255, PDU session
+    # identity 0 / 255, security header type / spare half octet 0xF0 / 0xFF ...): routing looks at discriminator and type only
+    for p in routed:
+        inp = p["inp"]
+        if inp[0] == 0x7E and len(inp) >= 3:
+            for v in (0x0F, 0x70, 0x80, 0xF0, 0xFF):
+                cases.append(dict(k="dec", entry="plain", inp=inp[:1] + [v] + inp[2:]))
+        elif inp[0] == 0x2E and len(inp) >= 4:
+            for a in (0x00, 0x01, 0x0F, 0x10, 0x80, 0xFF):
+                for b in (0x00, 0x01, 0x7F, 0x80, 0xFE, 0xFF):
+                    cases.append(dict(k="dec", entry="plain", inp=inp[:1] + [a, b] + inp[3:]))
     # the instances of every other message of the family under this message's type octet (contents filled with this message's
     # own identifiers), and every message behind octets that look like a framing header
     for t in TABLES:
